@@ -153,7 +153,7 @@ func runC18(c *Ctx, r *Report, tier string) {
 		if helpers[c.fname(fn)] || !strings.HasPrefix(c.fname(fn), "(*completion).") {
 			continue
 		}
-		for _, b := range fn.Blocks {
+		for _, b := range c.blocks(fn) {
 			for _, in := range b.Instrs {
 				call, ok := in.(*ssa.Call)
 				if !ok {
